@@ -433,22 +433,29 @@ func (w *World) noteDescribe(c *Call, out *autoscaling.DescribeAutoScalingGroups
 			if k == nil {
 				continue
 			}
-			same := k.Min == awsapi.Int64Value(g.MinSize) && k.Max == awsapi.Int64Value(g.MaxSize) && k.Desired == awsapi.Int64Value(g.DesiredCapacity) && len(k.Instances) == len(g.Instances)
+			sameSize := k.Min == awsapi.Int64Value(g.MinSize) && k.Max == awsapi.Int64Value(g.MaxSize) && k.Desired == awsapi.Int64Value(g.DesiredCapacity)
+			sameMembers := len(k.Instances) == len(g.Instances)
 			for _, i := range g.Instances {
 				if _, ok := k.Instances[awsapi.StringValue(i.InstanceId)]; !ok {
-					same = false
+					sameMembers = false
 				}
 			}
-			if !same {
+			if !sameSize {
 				k.Ambiguous = true
-				w.markAmbiguous(name)
+				w.markAmbiguous(name, true)
 				w.stats.Probe("known-ASG model ambiguous (a describe outside Refresh answered differently)")
+			}
+			if !sameMembers {
+				k.AmbiguousMembers = true
+				w.markAmbiguous(name, false)
+				w.stats.Probe("known-ASG membership ambiguous (a describe outside Refresh lists other members)")
 			}
 		}
 		for _, name := range strings.Split(c.Target, ",") {
 			if k := w.known[name]; k != nil && !answered[name] {
-				k.Ambiguous = true
-				w.markAmbiguous(name)
+				k.Ambiguous, k.AmbiguousMembers = true, true
+				w.markAmbiguous(name, true)
+				w.markAmbiguous(name, false)
 			}
 		}
 		return
@@ -462,9 +469,13 @@ func (w *World) noteDescribe(c *Call, out *autoscaling.DescribeAutoScalingGroups
 	}
 }
 
-func (w *World) markAmbiguous(asg string) {
+func (w *World) markAmbiguous(asg string, size bool) {
 	if w.gscan != nil && w.asgOfCtx() == asg {
-		w.gscan.KnownAmbiguous = true
+		if size {
+			w.gscan.KnownAmbiguous = true
+		} else {
+			w.gscan.MembersAmbiguous = true
+		}
 	}
 }
 
